@@ -1,9 +1,429 @@
 import SupervisorModel.Model.Auth
+/-
+  C17 — with authentication configured, no request is served without valid credentials.
+
+  `serve P username password hits header` (Model/Auth.lean) is one request through the server's
+  dispatch loop: `hits name` says whether the handler installed under that name matches the
+  request (path tests are not modelled: the theorems hold for EVERY such function), `header` is
+  the list of header lines, `P` the runtime functions (base64, UTF-8 validity, SHA-1) — the
+  theorems hold for EVERY `P`.  Guards, status codes, the table of wrapped handlers and the
+  dispatch order are regenerated from /repo on every run (`Sv.Gen.Auth`).
+
+  Layout: (1) the statement's own notions; (2) auxiliary lemmas (namespace `Sv.Auth.Aux`);
+  (3) the property theorems.
+-/
 set_option linter.unusedSimpArgs false
+set_option linter.unusedVariables false
+
+/-! ## 1. What "carries exactly those credentials" means -/
 namespace Sv.Props.C17
 open Sv Sv.Auth Sv.Gen.Auth
 
-/-- every handler installed on a server is wrapped in `supervisor_auth_handler` when a username is set -/
+/-- the word `basic` -/
+def basicWord : Bytes := [98, 97, 115, 105, 99]
+
+/-- The request carries an Authorization header (the first header line of that form) whose scheme
+    is Basic in any letter case and whose cookie base64-decodes to valid UTF-8 text
+    `user ++ ":" ++ p`, where `p` is the stored password — or, for a stored `{SHA}hex` entry, a
+    password whose SHA-1 hex digest is `hex`. -/
+def Authorized (P : Params) (user stored : Bytes) (header : List Bytes) : Prop :=
+  ∃ scheme cookie decoded p,
+    authLine header = some (scheme, cookie) ∧ lowerAscii scheme = basicWord ∧
+    P.b64 cookie = some decoded ∧ P.utf8ok decoded = true ∧
+    decoded = user ++ 58 :: p ∧ (58 : UInt8) ∉ user ∧
+    (if sha_prefix.isPrefixOf stored = true then stored.drop 5 = P.sha1hex p else stored = p)
+
+/-- some installed handler matches the request -/
+def SomeHandlerMatches (hits : String → Bool) : Prop := ∃ n ∈ dispatch_order, hits n = true
+
+end Sv.Props.C17
+
+/-! ## 2. Auxiliary lemmas -/
+namespace Sv.Auth.Aux
+open Sv Sv.Auth Sv.Gen.Auth Sv.Props.C17
+
+theorem splitFirst_spec (sep : UInt8) : ∀ (l a b : Bytes),
+    splitFirst sep l = some (a, b) ↔ (l = a ++ sep :: b ∧ sep ∉ a) := by
+  intro l
+  induction l with
+  | nil => intro a b; simp [splitFirst]
+  | cons c r ih =>
+    intro a b
+    by_cases hc : c = sep
+    · subst hc
+      simp only [splitFirst, if_true, Option.some.injEq, Prod.mk.injEq]
+      constructor
+      · rintro ⟨rfl, rfl⟩; simp
+      · rintro ⟨h1, h2⟩
+        cases a with
+        | nil => simp at h1; exact ⟨rfl, h1⟩
+        | cons x a' => simp at h1; simp [h1.1] at h2
+    · simp only [splitFirst, hc, if_false]
+      constructor
+      · intro h
+        cases hs : splitFirst sep r with
+        | none => rw [hs] at h; simp at h
+        | some ab =>
+          obtain ⟨a0, b0⟩ := ab
+          rw [hs] at h
+          simp only [Option.some.injEq, Prod.mk.injEq] at h
+          obtain ⟨rfl, rfl⟩ := h
+          have h0 := (ih a0 b0).mp hs
+          refine ⟨by simp [h0.1], ?_⟩
+          intro hm
+          rcases List.mem_cons.mp hm with h | h
+          · exact hc h.symm
+          · exact h0.2 h
+      · rintro ⟨h1, h2⟩
+        cases a with
+        | nil => simp at h1; exact absurd h1.1 hc
+        | cons x a' =>
+          simp at h1
+          have := (ih a' b).mpr ⟨h1.2, fun hm => h2 (List.mem_cons_of_mem _ hm)⟩
+          rw [this, h1.1]
+
+theorem splitFirst_none_of_mem (sep : UInt8) : ∀ l : Bytes, splitFirst sep l = none → sep ∉ l := by
+  intro l
+  induction l with
+  | nil => simp
+  | cons c r ih =>
+    intro h
+    by_cases hc : c = sep
+    · subst hc; simp [splitFirst] at h
+    · simp only [splitFirst, hc, if_false] at h
+      cases hs : splitFirst sep r with
+      | none =>
+        intro hm
+        rcases List.mem_cons.mp hm with h' | h'
+        · exact hc h'.symm
+        · exact ih hs h'
+      | some ab => rw [hs] at h; simp at h
+
+/-- the comparison with the stored entry, as the code computes it -/
+def Xb (P : Params) (stored q : Bytes) : Bool :=
+  if sha_prefix.isPrefixOf stored = true then stored.drop 5 == P.sha1hex q else stored == q
+
+theorem Xb_iff (P : Params) (stored q : Bytes) :
+    Xb P stored q = true ↔
+      (if sha_prefix.isPrefixOf stored = true then stored.drop 5 = P.sha1hex q else stored = q) := by
+  unfold Xb; split <;> simp
+
+/-- the authorizer on the one-entry dictionary `make_http_servers` builds -/
+theorem authorize_single (P : Params) (user stored u p : Bytes) :
+    authorize P [(user, stored)] (some (u, p)) = some (decide (u = user) && Xb P stored p) := by
+  unfold Xb
+  by_cases h : u = user
+  · subst h
+    simp [authorize, authz_g0, authz_g1, authz_a3, authz_a4, authz_a5, List.lookup, pySliceFrom]
+    split <;> simp_all
+  · have h' : (u == user) = false := by simpa using h
+    simp [authorize, authz_g0, authz_g1, authz_a3, authz_a4, authz_a5, List.lookup, h, h']
+
+theorem sepByte_eq : sepByte = 58 := by decide
+
+/-- `handle_request` in closed form (the only place where the regenerated guards are unfolded) -/
+theorem handle_eq (P : Params) (user stored : Bytes) (header : List Bytes) :
+    handleRequest P [(user, stored)] header =
+      match authLine header with
+      | none => .unauthorized
+      | some (scheme, cookie) =>
+        if lowerAscii scheme = basicWord then
+          match P.b64 cookie with
+          | none => .malformed
+          | some decoded =>
+            if P.utf8ok decoded = true then
+              match splitFirst 58 decoded with
+              | none => .raised
+              | some (a, b) => if a = user ∧ Xb P stored b = true then .inner a b else .unauthorized
+            else .malformed
+        else .unauthorized := by
+  unfold handleRequest
+  cases hal : authLine header with
+  | none => simp [handleReq_g0]
+  | some sc =>
+    obtain ⟨scheme, cookie⟩ := sc
+    simp only [handleReq_g0, handleReq_g1]
+    by_cases hs : scheme = []
+    · subst hs; simp [lowerAscii, basicWord]
+    · have hs' : (!scheme.isEmpty) = true := by cases scheme <;> simp_all
+      simp only [hs', if_true]
+      by_cases hb : lowerAscii scheme = basicWord
+      · have hb' : (lowerAscii scheme == ([98, 97, 115, 105, 99] : List UInt8)) = true := by
+          simpa [basicWord] using hb
+        simp only [hb', if_true, if_pos hb]
+        cases hd : P.b64 cookie with
+        | none => rfl
+        | some decoded =>
+          simp only
+          by_cases hu : P.utf8ok decoded = true
+          · simp only [hu, if_true, sepByte_eq]
+            cases hsp : splitFirst 58 decoded with
+            | none => simp [authorize]
+            | some ab =>
+              obtain ⟨a, b⟩ := ab
+              simp only [authorize_single]
+              by_cases hau : a = user <;> cases hx : Xb P stored b <;> simp [hau, hx]
+          · have hu' : P.utf8ok decoded = false := by simpa using hu
+            simp [hu']
+      · have hb' : (lowerAscii scheme == ([98, 97, 115, 105, 99] : List UInt8)) = false := by
+          simpa [basicWord] using hb
+        simp only [hb', if_neg hb]; simp
+
+/-- the decision of `handle_request` -/
+theorem handle_inner_iff (P : Params) (user stored : Bytes) (header : List Bytes) (u p : Bytes) :
+    handleRequest P [(user, stored)] header = .inner u p ↔
+    (u = user ∧ ∃ scheme cookie decoded,
+      authLine header = some (scheme, cookie) ∧ lowerAscii scheme = basicWord ∧
+      P.b64 cookie = some decoded ∧ P.utf8ok decoded = true ∧
+      decoded = user ++ 58 :: p ∧ (58 : UInt8) ∉ user ∧
+      (if sha_prefix.isPrefixOf stored = true then stored.drop 5 = P.sha1hex p else stored = p)) := by
+  rw [handle_eq]
+  constructor
+  · intro h
+    cases hal : authLine header with
+    | none => rw [hal] at h; cases h
+    | some sc =>
+      obtain ⟨scheme, cookie⟩ := sc
+      rw [hal] at h
+      simp only at h
+      by_cases hb : lowerAscii scheme = basicWord
+      · rw [if_pos hb] at h
+        cases hd : P.b64 cookie with
+        | none => rw [hd] at h; cases h
+        | some decoded =>
+          rw [hd] at h
+          simp only at h
+          by_cases hu : P.utf8ok decoded = true
+          · rw [if_pos hu] at h
+            cases hsp : splitFirst 58 decoded with
+            | none => rw [hsp] at h; cases h
+            | some ab =>
+              obtain ⟨a, b⟩ := ab
+              rw [hsp] at h
+              simp only at h
+              by_cases hc : a = user ∧ Xb P stored b = true
+              · rw [if_pos hc] at h
+                simp only [Resp.inner.injEq] at h
+                obtain ⟨rfl, rfl⟩ := h
+                have hab := (splitFirst_spec 58 decoded a b).mp hsp
+                obtain ⟨rfl, hx⟩ := hc
+                exact ⟨rfl, scheme, cookie, decoded, rfl, hb, hd, hu, hab.1, hab.2, (Xb_iff P stored b).mp hx⟩
+              · rw [if_neg hc] at h; cases h
+          · rw [if_neg hu] at h; cases h
+      · rw [if_neg hb] at h; cases h
+  · rintro ⟨rfl, s, c, d, h1, h2, h3, h4, h5, h6, h7⟩
+    have hsp := (splitFirst_spec 58 d u p).mpr ⟨h5, h6⟩
+    have hx := (Xb_iff P stored p).mpr h7
+    simp [h1, h2, h3, h4, hsp, hx]
+
+theorem authEnabled_nonempty (user : Bytes) (h : user ≠ []) : authEnabled (some user) = true := by
+  cases user with
+  | nil => exact absurd rfl h
+  | cons x r => simp [authEnabled, mkServers_g2]
+
+theorem dispatch_all_wrapped : ∀ n ∈ dispatch_order, wrapped_when_auth.contains n = true := by decide
+
+theorem found_mem {hits : String → Bool} {name : String} (h : dispatch_order.find? hits = some name) :
+    name ∈ dispatch_order ∧ hits name = true :=
+  ⟨List.mem_of_find?_eq_some h, by simpa using List.find?_some h⟩
+
+end Sv.Auth.Aux
+
+/-! ## 3. The property theorems -/
+namespace Sv.Props.C17
+open Sv Sv.Auth Sv.Gen.Auth Sv.Auth.Aux
+
+/-- **all_handlers_wrapped.**  Every handler `make_http_servers` installs — XML-RPC, both log
+    tails, the web UI, static files — is re-bound to `supervisor_auth_handler(users, <itself>)`
+    under `if username:`; decided over the table regenerated from the source. -/
 theorem all_handlers_wrapped : ∀ h ∈ installed, h ∈ wrapped_when_auth := by decide
+
+/-- … the server consults the handlers in the reverse order of installation, and the users
+    dictionary is exactly the configured pair -/
+theorem chain_is_the_installed_one :
+    dispatch_order = installed.reverse ∧ install_at_front = true ∧ install_extra_args = false ∧
+    users_dict = "{username: password}" ∧ wrap_guard = "username" ∧ dispatch_first_match_returns = true := by decide
+
+/-- the regexp the model implements as `parseAuthLine` is the one in the source, and the decoding
+    `try` does not enclose the authorizer call (so a missing colon is an exception, not a 400) -/
+theorem modelled_source_shape :
+    auth_pattern = "Authorization: ([^ ]+) (.*)" ∧ auth_ignorecase = true ∧ header_groups = [1, 2] ∧
+    split_sep = [58] ∧ split_max = 1 ∧ authorize_inside_try = false ∧ decode_handler_is_bare_except = true ∧
+    sha_prefix.length = 5 := by decide
+
+/-- **served_iff_authorized.**  With a non-empty configured username, for every request — every
+    header list, every path-matching behaviour of the handlers, every base64/UTF-8/SHA-1 function —
+    some handler's `handle_request` runs **iff** a handler matches the request and the request
+    carries exactly the configured credentials.  The handler then sees `auth_info = [user, p]`. -/
+theorem served_iff_authorized (P : Params) (user stored : Bytes) (hne : user ≠ [])
+    (hits : String → Bool) (header : List Bytes) :
+    (serve P (some user) (some stored) hits header).invoked.isSome = true ↔
+      (SomeHandlerMatches hits ∧ Authorized P user stored header) := by
+  unfold serve
+  cases hf : dispatch_order.find? hits with
+  | none =>
+    simp only [Option.isSome_none, Bool.false_eq_true, false_iff, not_and]
+    rintro ⟨n, hn, hh⟩
+    have := List.find?_eq_none.mp hf n hn
+    simp [hh] at this
+  | some name =>
+    obtain ⟨hmem, hhit⟩ := found_mem hf
+    have hw : isWrapped (some user) name = true := by
+      simp only [isWrapped, authEnabled_nonempty user hne, dispatch_all_wrapped name hmem, Bool.and_self]
+    simp only [hw, if_true, Option.getD_some]
+    constructor
+    · intro h
+      refine ⟨⟨name, hmem, hhit⟩, ?_⟩
+      cases hr : handleRequest P [(user, stored)] header with
+      | inner u p =>
+        obtain ⟨_, s, c, d, h1, h2, h3, h4, h5, h6, h7⟩ := (handle_inner_iff P user stored header u p).mp hr
+        exact ⟨s, c, d, p, h1, h2, h3, h4, h5, h6, h7⟩
+      | malformed => rw [hr] at h; simp at h
+      | unauthorized => rw [hr] at h; simp at h
+      | raised => rw [hr] at h; simp at h
+    · rintro ⟨_, s, c, d, p, h1, h2, h3, h4, h5, h6, h7⟩
+      have := (handle_inner_iff P user stored header user p).mpr ⟨rfl, s, c, d, h1, h2, h3, h4, h5, h6, h7⟩
+      rw [this]; rfl
+
+/-- the credentials handed to the handler are the configured user and the password received -/
+theorem served_with_configured_user (P : Params) (user stored : Bytes) (hne : user ≠ [])
+    (hits : String → Bool) (header : List Bytes) (name : String) (ai : Option (Bytes × Bytes))
+    (h : (serve P (some user) (some stored) hits header).invoked = some (name, ai)) :
+    ∃ p, ai = some (user, p) ∧ dispatch_order.find? hits = some name := by
+  unfold serve at h
+  cases hf : dispatch_order.find? hits with
+  | none => rw [hf] at h; simp at h
+  | some n =>
+    obtain ⟨hmem, _⟩ := found_mem hf
+    have hw : isWrapped (some user) n = true := by
+      simp only [isWrapped, authEnabled_nonempty user hne, dispatch_all_wrapped n hmem, Bool.and_self]
+    rw [hf] at h
+    simp only [hw, if_true, Option.getD_some] at h
+    cases hr : handleRequest P [(user, stored)] header with
+    | inner u p =>
+      rw [hr] at h
+      simp only [Option.some.injEq, Prod.mk.injEq] at h
+      obtain ⟨rfl, rfl⟩ := h
+      have := ((handle_inner_iff P user stored header u p).mp hr).1
+      exact ⟨p, by rw [this], rfl⟩
+    | malformed => rw [hr] at h; simp at h
+    | unauthorized => rw [hr] at h; simp at h
+    | raised => rw [hr] at h; simp at h
+
+/-- **refused_has_no_effect.**  Without exactly the configured credentials no handler's
+    `handle_request` runs at all — whatever the path, method or header: no RPC method runs, no
+    log or file byte is produced (those exist only inside the handlers). -/
+theorem refused_has_no_effect (P : Params) (user stored : Bytes) (hne : user ≠ [])
+    (hits : String → Bool) (header : List Bytes) (h : ¬ Authorized P user stored header) :
+    (serve P (some user) (some stored) hits header).invoked = none := by
+  cases hi : (serve P (some user) (some stored) hits header).invoked with
+  | none => rfl
+  | some x =>
+    exfalso
+    have := (served_iff_authorized P user stored hne hits header).mp (by rw [hi]; rfl)
+    exact h this.2
+
+/-- **refusal_status.**  A request that matches a handler but is not authorised is answered
+    401 with the Basic challenge, or 400 (undecodable cookie), or 500 (decoded text without a
+    colon: the exception path) — never passed on. -/
+theorem refusal_status (P : Params) (user stored : Bytes) (hne : user ≠ [])
+    (hits : String → Bool) (header : List Bytes) (hm : SomeHandlerMatches hits)
+    (h : ¬ Authorized P user stored header) :
+    let r := serve P (some user) (some stored) hits header
+    r.invoked = none ∧
+      ((r.status = some 401 ∧ r.challenge = true) ∨ (r.status = some 400 ∧ r.challenge = false) ∨
+       (r.status = some 500 ∧ r.challenge = false)) := by
+  intro r
+  refine ⟨refused_has_no_effect P user stored hne hits header h, ?_⟩
+  have hni := refused_has_no_effect P user stored hne hits header h
+  show (r.status = some 401 ∧ r.challenge = true) ∨ _
+  simp only [r] at *
+  unfold serve at hni ⊢
+  cases hf : dispatch_order.find? hits with
+  | none =>
+    obtain ⟨n, hn, hh⟩ := hm
+    have := List.find?_eq_none.mp hf n hn
+    simp [hh] at this
+  | some name =>
+    obtain ⟨hmem, _⟩ := found_mem hf
+    have hw : isWrapped (some user) name = true := by
+      simp only [isWrapped, authEnabled_nonempty user hne, dispatch_all_wrapped name hmem, Bool.and_self]
+    rw [hf] at hni
+    simp only [hw, if_true, Option.getD_some] at hni ⊢
+    cases hr : handleRequest P [(user, stored)] header with
+    | inner u p => rw [hr] at hni; simp at hni
+    | malformed => simp [code_malformed]
+    | unauthorized => simp [code_unauthorized]
+    | raised => simp [code_exception]
+
+/-- the two most common refusals, exactly: no Authorization line at all, or another scheme ⇒ 401
+    with the challenge -/
+theorem absent_or_other_scheme_gets_401 (P : Params) (user stored : Bytes) (hne : user ≠ [])
+    (hits : String → Bool) (header : List Bytes) (hm : SomeHandlerMatches hits)
+    (h : authLine header = none ∨ ∃ s c, authLine header = some (s, c) ∧ lowerAscii s ≠ basicWord) :
+    serve P (some user) (some stored) hits header = ⟨some 401, true, none⟩ := by
+  unfold serve
+  cases hf : dispatch_order.find? hits with
+  | none =>
+    obtain ⟨n, hn, hh⟩ := hm
+    have := List.find?_eq_none.mp hf n hn
+    simp [hh] at this
+  | some name =>
+    obtain ⟨hmem, _⟩ := found_mem hf
+    have hw : isWrapped (some user) name = true := by
+      simp only [isWrapped, authEnabled_nonempty user hne, dispatch_all_wrapped name hmem, Bool.and_self]
+    simp only [hw, if_true, Option.getD_some]
+    have : handleRequest P [(user, stored)] header = .unauthorized := by
+      unfold handleRequest
+      rcases h with h | ⟨s, c, h, hs⟩
+      · simp [h, handleReq_g0]
+      · have hb' : (lowerAscii s == ([98, 97, 115, 105, 99] : List UInt8)) = false := by
+          simpa [basicWord] using hs
+        simp only [h, handleReq_g0, handleReq_g1, hb']
+        split <;> rfl
+    rw [this]; rfl
+
+/-- a request no handler matches is answered 404 and runs nothing -/
+theorem no_handler_404 (P : Params) (user stored : Option Bytes) (hits : String → Bool) (header : List Bytes)
+    (h : ¬ SomeHandlerMatches hits) : serve P user stored hits header = ⟨some 404, false, none⟩ := by
+  unfold serve
+  cases hf : dispatch_order.find? hits with
+  | none => rfl
+  | some name => exact absurd ⟨name, (found_mem hf).1, (found_mem hf).2⟩ h
+
+/-! ### F18 (open): an empty configured username disables authentication -/
+
+/-- `username=` (empty) with any password: `if username:` is false, nothing is wrapped, and every
+    request that matches a handler is served without credentials.  This is why
+    `served_iff_authorized` carries `user ≠ []`. -/
+theorem f18_empty_username_disables_auth (P : Params) (stored : Option Bytes) (hits : String → Bool)
+    (header : List Bytes) (name : String) (h : dispatch_order.find? hits = some name) :
+    (serve P (some []) stored hits header).invoked = some (name, none) := by
+  unfold serve
+  rw [h]
+  simp [isWrapped, authEnabled, mkServers_g2]
+
+/-! ### Non-vacuity -/
+
+/-- toy runtime: base64 = identity, everything valid UTF-8, sha1hex = reverse -/
+def toyP : Params := { b64 := fun c => some c, utf8ok := fun _ => true, sha1hex := fun p => p.reverse }
+
+def hdrOk : List Bytes := [([72, 111, 115, 116, 58, 32, 120] : Bytes), ([97, 117, 116, 104, 111, 114, 105, 122, 97, 116, 105, 111, 110, 58, 32, 66, 65, 83, 73, 67, 32, 117, 58, 112, 119] : Bytes)]
+def hdrBad : List Bytes := [([65, 117, 116, 104, 111, 114, 105, 122, 97, 116, 105, 111, 110, 58, 32, 66, 97, 115, 105, 99, 32, 117, 58, 112, 120] : Bytes)]
+
+example : authLine hdrOk = some (([66, 65, 83, 73, 67] : Bytes), ([117, 58, 112, 119] : Bytes)) := by decide
+example : (serve toyP (some [117]) (some [112, 119]) (fun n => n == "tailhandler") hdrOk).invoked =
+    some ("tailhandler", some ([117], [112, 119])) := by decide
+example : serve toyP (some [117]) (some [112, 119]) (fun n => n == "tailhandler") hdrBad = ⟨some 401, true, none⟩ := by decide
+-- {SHA} entry: stored = "{SHA}" ++ reverse "pw"
+example : (serve toyP (some [117]) (some (sha_prefix ++ [119, 112])) (fun _ => true) hdrOk).invoked =
+    some ("xmlrpchandler", some ([117], [112, 119])) := by decide
+-- missing colon: the exception path, answered 500
+example : serve toyP (some [117]) (some [112]) (fun _ => true) [([65, 117, 116, 104, 111, 114, 105, 122, 97, 116, 105, 111, 110, 58, 32, 66, 97, 115, 105, 99, 32, 117, 112] : Bytes)] =
+    ⟨some 500, false, none⟩ := by decide
+-- undecodable cookie: 400
+example : serve { toyP with b64 := fun _ => none } (some [117]) (some [112]) (fun _ => true) hdrOk =
+    ⟨some 400, false, none⟩ := by decide
+example : SomeHandlerMatches (fun n => n == "defaulthandler") := ⟨"defaulthandler", by decide, by decide⟩
 
 end Sv.Props.C17
